@@ -42,6 +42,11 @@ func runProg(c *Ctx, p *Prog, ck ProgChecks, sigPrefix string) (*Runner, bool) {
 	if r.Tracer != nil {
 		c.Res.CountN("lsm-score", "versions-scored", r.Tracer.nScore)
 		c.Res.CountN("lsm-score", "score>=1", r.Tracer.nScoreGE1)
+		c.Res.CountN("lsm-visits", "lookups-walked", r.Tracer.nVisits)
+		c.Res.CountN("lsm-visits", "seek-charged", r.Tracer.nCharged)
+		for n, k := range r.Tracer.visitLens {
+			c.Res.CountN("lsm-visits-tables-consulted", fmt.Sprint(n), k)
+		}
 	}
 	if r.Failed {
 		small := shrinkProg(p, ck, r.FailSig, failAt)
